@@ -56,7 +56,8 @@ class Interp:
 
     def _send(self, stream, data: bytes):
         pgn, src, dest = STREAMS[stream]
-        i = wire.ident(pgn, src, dest, 3)
+        c = self.cur.get(stream)
+        i = wire.ident(pgn, src, dest, c.get("prio", 3) if c else 3)
         if self.fmt == "ebyte":
             return self.dec.decode_tcp(wire.ebyte(i, data))
         if self.fmt == "usb":
@@ -79,7 +80,8 @@ class Interp:
             if any(c is not None and not c["done"] and t != s for t, c in self.cur.items()):
                 self.stats["overlap"] += 1
             self.prev[s] = self.cur.get(s)
-            self.cur[s] = {"payload": payload, "seq": op["seq"], "frames": frames, "got": set(), "done": False, "dropped": set()}
+            self.cur[s] = {"payload": payload, "seq": op["seq"], "frames": frames, "got": set(), "done": False, "dropped": set(),
+                           "prio": op.get("prio", 3)}
             return self._deliver(s, 0, op)
         if op["op"] == "stale":
             # a late (or duplicated) non-first frame of the previous message of this stream: it carries another sequence counter
@@ -91,6 +93,28 @@ class Interp:
                 return [(f"{tag}|decoder-error|{type(e).__name__}", f"step {len(self.ops) - 1} {op}: {type(e).__name__}: {e}")]
             if r is not None:
                 return [(f"{tag}|stale-frame-delivered", f"step {len(self.ops) - 1} {op}: a frame of the previous message (other sequence counter) produced a message")]
+            return []
+        if op["op"] == "claim":
+            # an ISO address claim (single frame, PGN 60928) from some address arrives between the frames; not judged itself
+            from .. import traffic
+            self.stats["claim"] = self.stats.get("claim", 0) + 1
+            i = wire.ident(60928, op["src"], 255, 6)
+            data = traffic.iso_name(op["name"], 137 + op["name"] % 3).to_bytes(8, "little")
+            try:
+                if self.fmt == "ebyte":
+                    self.dec.decode_tcp(wire.ebyte(i, data))
+                elif self.fmt == "usb":
+                    self.dec.decode_usb(wire.usb(i, data))
+                else:
+                    self.dec.decode_yacht_devices_string(wire.yd(i, data))
+            except Exception:
+                pass
+            return []
+        if op["op"] == "wallstep":
+            # the system time is stepped (NTP correction, end of daylight saving time); monotonic time is not
+            from ..common import CLOCK
+            CLOCK.step_wall(op["seconds"])
+            self.stats["wallstep"] = self.stats.get("wallstep", 0) + 1
             return []
         if op["op"] == "warp":
             # real time passes between two inputs (the process clock is advanced); nothing is delivered
@@ -155,6 +179,8 @@ class Interp:
                 out.append((f"{tag}|{kind}", f"step {len(self.ops) - 1} {op}: a message was returned although the frame does not complete one"))
             if (r.PGN, r.source, r.destination) != (pgn, src, dest):
                 out.append((f"{tag}|addressing", f"returned message addressing {(r.PGN, r.source, r.destination)} != {(pgn, src, dest)}"))
+            if r.priority != c.get("prio", 3):
+                out.append((f"{tag}|priority", f"step {len(self.ops) - 1}: returned message has priority {r.priority}, its frames carried {c.get('prio', 3)}"))
             if r.id != fp.fallback_id(pgn):
                 out.append((f"{tag}|definition", f"decoded as {r.id}"))
             else:
@@ -170,7 +196,7 @@ class Interp:
 
     def nontrivial(self):
         st_ = self.stats
-        return st_["overlap"] > 0 or st_["reorder"] or st_["dup"] or st_["drop"] or st_["pad"] or st_["stale"] or st_["dupfirst"] or st_["warp"]
+        return st_["overlap"] > 0 or st_["reorder"] or st_["dup"] or st_["drop"] or st_["pad"] or st_["stale"] or st_["dupfirst"] or st_["warp"] or st_.get("claim") or st_.get("wallstep")
 
 
 def run_history(ops, fmt="ebyte"):
@@ -242,7 +268,8 @@ def make_machine_factory(ctx: Ctx, fmt: str):
                 pad = {"none": b"", "00": bytes(7), "ff": b"\xff" * 7}.get(padkind)
                 if pad is None:
                     pad = data.draw(st.binary(min_size=7, max_size=7), label="pad")
-                self._do({"op": "start", "stream": s, "payload": payload.hex(), "seq": seq, "pad": pad.hex()})
+                prio = data.draw(st.sampled_from([3, 3, 3, 2, 6, 0, 7]), label="priority")
+                self._do({"op": "start", "stream": s, "payload": payload.hex(), "seq": seq, "pad": pad.hex(), "prio": prio})
 
             def _pending(self, s):
                 c = self.it.cur.get(s)
@@ -297,6 +324,18 @@ def make_machine_factory(ctx: Ctx, fmt: str):
                 cands = [s for s in self._streams() if self._dupfirst_ok(s)]
                 s = data.draw(st.sampled_from(cands), label="stream")
                 self._do({"op": "dupfirst", "stream": s})
+
+            @precondition(lambda self: any(self._pending(s) for s in self._streams()))
+            @rule(which=st.integers(0, 40), name=st.integers(1, 3))
+            def address_claim(self, which, name):
+                # from a sender of a stream in use, a destination, or an address whose digits are part of another one
+                pool = sorted({STREAMS[s][1] for s in self._streams()} | {STREAMS[s][2] for s in self._streams()} | {1, 2, 5, 12, 13, 23, 25, 55}) 
+                self._do({"op": "claim", "stream": 0, "src": min(pool[which % len(pool)], 253), "name": name})
+
+            @precondition(lambda self: any(self._pending(s) for s in self._streams()))
+            @rule(seconds=st.sampled_from([-0.8, -5.0, -3600.0, 3600.0, -86400.0]))
+            def system_time_stepped(self, seconds):
+                self._do({"op": "wallstep", "stream": 0, "seconds": seconds})
 
             @precondition(lambda self: any(self._pending(s) for s in self._streams()))
             @rule(seconds=st.sampled_from([0.2, 1.0, 5.0, 120.0]))
